@@ -361,7 +361,19 @@ Section Chk.
                           end) l
       | None => false
       end) (s_objs sol).
-  Definition check_objects : bool := check_ctors && check_field_vars && check_domains.
+  Definition check_arg_types : bool :=
+    forallb (fun ar =>
+      match a_state ar with
+      | Inactive => true
+      | _ => match rule_chain pfuel prog (a_pred ar) with
+             | Some ch => forallb (fun xt => match own sol (a_id ar) (fst xt) with
+                                             | Some v => has_typeb (snd xt) v
+                                             | None => true
+                                             end) (chain_params ch)
+             | None => false
+             end
+      end) (s_atoms sol).
+  Definition check_objects : bool := check_ctors && check_field_vars && check_arg_types && check_domains.
 
   Definition check_solution : bool := check_satisfies && check_justified && check_temporal && check_objects.
 End Chk.
